@@ -29,6 +29,23 @@ func main() {
 		fmt.Println(string(b))
 		return
 	}
+	if len(os.Args) >= 4 && os.Args[1] == "dump" {
+		lp, err := load.Load(load.Options{Repo: envOr("VERIF_REPO", "/repo")})
+		if err != nil {
+			fmt.Fprintln(os.Stderr, err)
+			os.Exit(2)
+		}
+		fn, err := ir.New(lp).Func(os.Args[2], os.Args[3])
+		if err != nil {
+			fmt.Fprintln(os.Stderr, err)
+			os.Exit(2)
+		}
+		fn.WriteTo(os.Stdout)
+		for _, a := range fn.AnonFuncs {
+			a.WriteTo(os.Stdout)
+		}
+		return
+	}
 	if len(os.Args) < 3 || os.Args[1] != "check" {
 		fmt.Fprintln(os.Stderr, "usage: polyverif check <id[,id...]|all> [-tier quick|thorough] [-v] [-repo /repo] [-verif /verif]")
 		os.Exit(2)
